@@ -505,11 +505,13 @@ fn counter_spec(p: &MachineParams) -> BoxedStrategy<CounterSpec> {
     } else {
         dist(prof, DistUse::CounterValue)
     };
-    (0u8..3, 0u8..4, d)
+    (0u8..3, 0u8..5, d)
         .prop_map(|(op, mode, dist)| match mode {
             0 | 1 => CounterSpec { op, dist: None, copy: false },
             2 => CounterSpec { op, dist: Some(dist), copy: false },
-            _ => CounterSpec { op, dist: None, copy: true },
+            3 => CounterSpec { op, dist: None, copy: true },
+            // copy supersedes the distribution (only a struct literal or a decoder produces this)
+            _ => CounterSpec { op, dist: Some(dist), copy: true },
         })
         .boxed()
 }
